@@ -181,6 +181,12 @@ type scriptT struct {
 	selfNamed int
 	allSentAt time.Time // when a session had handed its last response to the transport
 	mu        sync.Mutex
+	// pollclient mode: the last session pauses after responses[:gateAt] (whose
+	// last member is a marker leaf) until the harness closes gate.
+	gateAt  int
+	gate    chan struct{}
+	markKey []string
+	markVal string
 }
 
 const defaultOrigin = "openconfig"
@@ -371,7 +377,14 @@ func (t *targetServer) Subscribe(stream gpb.GNMI_SubscribeServer) error {
 		}
 		return status.Error(codes.Unavailable, "scripted stream failure")
 	}
-	for _, r := range t.s.responses {
+	for i, r := range t.s.responses {
+		if t.s.gate != nil && i == t.s.gateAt {
+			select {
+			case <-t.s.gate:
+			case <-stream.Context().Done():
+				return nil
+			}
+		}
 		if err := stream.Send(proto.Clone(r).(*gpb.SubscribeResponse)); err != nil {
 			return err
 		}
@@ -615,6 +628,20 @@ func runScenario(r *vlib.Run, mode string, trial int, rng *rand.Rand) {
 				}
 			}
 		}
+		if mode == "pollclient" {
+			// A marker leaf in the middle of the stream; the target pauses behind it
+			// until a POLL client has taken a round of the state so far.
+			at := len(s.responses) / 2
+			s.markKey = []string{name, defaultOrigin, "zzgate", "mark"}
+			s.markVal = fmt.Sprintf("mark-%d", rng.Int63())
+			mk := &gpb.SubscribeResponse{Response: &gpb.SubscribeResponse_Update{Update: &gpb.Notification{Timestamp: tsBase + 1, Prefix: &gpb.Path{},
+				Update: []*gpb.Update{{Path: &gpb.Path{Elem: []*gpb.PathElem{{Name: "zzgate"}, {Name: "mark"}}}, Val: &gpb.TypedValue{Value: &gpb.TypedValue_StringVal{StringVal: s.markVal}}}}}}}
+			s.responses = append(s.responses[:at], append([]*gpb.SubscribeResponse{mk}, s.responses[at:]...)...)
+			s.gateAt = at + 1
+			s.gate = make(chan struct{})
+			s.mdl.set(s.markKey, s.markVal)
+			s.mdlAlt.set(s.markKey, s.markVal)
+		}
 		sc.scripts = append(sc.scripts, s)
 		r.Count("stream_same_timestamp_rewrites", int64(s.rewrites))
 		r.Count("stream_notifications_with_device_chosen_prefix_target", int64(s.selfNamed))
@@ -754,8 +781,60 @@ func runScenario(r *vlib.Run, mode string, trial int, rng *rand.Rand) {
 			o.c.Close()
 		}
 	}()
-	// Logical quiescence: every observer sees the nonce of every target it covers.
 	deadline := time.Now().Add(90 * time.Second)
+	// pollclient mode: a client-library POLL subscriber for "*" takes one round
+	// while every target is paused behind its marker, and another one at the end.
+	var pollc *client.CacheClient
+	pollMid := map[string]bool{}
+	if mode == "pollclient" {
+		openGates := func() {
+			for _, s := range sc.scripts {
+				close(s.gate)
+			}
+		}
+		star := observers[0]
+		for _, s := range sc.scripts {
+			for {
+				if tv, ok := star.c.GetLeafValue(s.markKey).(client.TreeVal); ok && tv.Val == s.markVal {
+					break
+				}
+				select {
+				case <-star.done:
+					openGates()
+					r.Violation(mode, trial, "subscribe-refused", fmt.Sprintf("client subscription for target %q through the collector ended: %v", star.target, star.err), wit())
+					return
+				default:
+				}
+				if time.Now().After(deadline.Add(-45 * time.Second)) {
+					openGates()
+					r.Inconclusive("pollclient: the marker of a paused target did not reach the STREAM subscriber within 45 s")
+					return
+				}
+				time.Sleep(5 * time.Millisecond)
+			}
+		}
+		pollc = client.New()
+		defer pollc.Close()
+		pctx, pcancel := context.WithTimeout(ctx, 30*time.Second)
+		defer pcancel()
+		err := pollc.Subscribe(pctx, client.Query{Addrs: []string{sc.collAddr}, Target: "*", Queries: []client.Path{{"*"}}, Type: client.Poll, Timeout: 20 * time.Second,
+			TLS: &tls.Config{InsecureSkipVerify: true}}, gclient.Type)
+		if err == nil {
+			err = pollc.Poll()
+		}
+		if err != nil {
+			openGates()
+			r.Violation(mode, trial, "subscribe-refused", fmt.Sprintf("client-library POLL subscription for target \"*\" through the collector failed: %v", err), wit())
+			return
+		}
+		for _, l := range pollc.Leaves() {
+			if !(len(l.Path) >= 2 && l.Path[1] == "meta") {
+				pollMid[model.Key(l.Path)] = true
+			}
+		}
+		openGates()
+	}
+	// Logical quiescence: every observer sees the nonce of every target it covers.
 	for _, o := range observers {
 		for _, s := range sc.scripts {
 			if o.target != "*" && o.target != s.name {
@@ -948,6 +1027,59 @@ func runScenario(r *vlib.Run, mode string, trial int, rng *rand.Rand) {
 	}
 	if !ok {
 		return
+	}
+	if pollc != nil {
+		if err := pollc.Poll(); err != nil {
+			r.Violation(mode, trial, "subscribe-refused", fmt.Sprintf("client-library POLL round through the collector failed: %v", err), wit())
+			return
+		}
+		got := map[string]interface{}{}
+		for _, l := range pollc.Leaves() {
+			if len(l.Path) >= 2 && l.Path[1] == "meta" {
+				continue
+			}
+			got[model.Key(l.Path)] = l.Val
+		}
+		gone := 0
+		for k := range pollMid {
+			if _, still := merged.cur[k]; !still {
+				gone++
+			}
+		}
+		r.Count("poll_client_views_compared", 1)
+		r.Count("poll_client_leaves_seen_in_an_earlier_round_and_deleted_since", int64(gone))
+		var diffs []string
+		for k, wv := range merged.cur {
+			gv, present := got[k]
+			if !present {
+				diffs = append(diffs, fmt.Sprintf("missing %v", model.Unkey(k)))
+			} else if !valuesEqual(gv, wv) {
+				diffs = append(diffs, fmt.Sprintf("wrong value at %v: got %#v want %#v", model.Unkey(k), gv, wv))
+			}
+		}
+		for k, gv := range got {
+			if _, present := merged.cur[k]; !present {
+				diffs = append(diffs, fmt.Sprintf("extra/stale %v=%#v", model.Unkey(k), gv))
+			}
+		}
+		if len(diffs) > 0 {
+			sort.Strings(diffs)
+			if len(diffs) > 8 {
+				diffs = diffs[:8]
+			}
+			sig := "poll-client-view-differs"
+			onlyStale := true
+			for _, d := range diffs {
+				if !strings.HasPrefix(d, "extra/stale") {
+					onlyStale = false
+				}
+			}
+			if onlyStale {
+				sig = "poll-client-view-keeps-deleted-leaves"
+			}
+			r.Violation(mode, trial, sig, fmt.Sprintf("client-library POLL view of \"*\" after a round taken at quiescence differs from the targets' final state (%d leaves of an earlier round were deleted since): %s", gone, strings.Join(diffs, "; ")), wit())
+			return
+		}
 	}
 	// CLI: three equivalent invocations x two display types, ONCE.
 	if !pathOrigin {
@@ -1451,6 +1583,7 @@ func body(r *vlib.Run) {
 	r.ForTrials("relay", r.N(48, 2400), func(trial int, rng *rand.Rand) { runScenario(r, "relay", trial, rng) })
 	r.ForTrials("pathorigin", r.N(4, 80), func(trial int, rng *rand.Rand) { runScenario(r, "pathorigin", trial, rng) })
 	r.ForTrials("reconnect", r.N(12, 360), func(trial int, rng *rand.Rand) { runScenario(r, "reconnect", trial, rng) })
+	r.ForTrials("pollclient", r.N(12, 360), func(trial int, rng *rand.Rand) { runScenario(r, "pollclient", trial, rng) })
 }
 
 func main() {
